@@ -141,7 +141,8 @@ def gen_ops(book, rng, n, p_set=0.4):
     pool = [gen_target(book, rng) for _ in range(6)]      # repeated cells on purpose
     pick = lambda: rng.choice(pool) if rng.random() < 0.7 else gen_target(book, rng)
     style = lambda: rng.choice(['num', 'a1', 'named'])
-    val = lambda: rng.choice([0, 1, 4, 9, 11, 20, -3, 2.5, 0.25, 'ov', '', True, False, 1.0, 0.0, None])
+    val = lambda: rng.choice([0, 1, 4, 9, 11, 20, -3, 2.5, 0.25, 'ov', '', True, False, 1.0, 0.0, None,
+                              1 + 2.0 ** -40, 0.5 + 2.0 ** -44])      # dyadic (sums stay exact) with more than 15 significant digits (an override is never rounded)
     twins = {1: [True, 1.0], True: [1, 1.0], 0: [False, 0.0], False: [0, 0.0]}
     last = {}
 
